@@ -551,7 +551,53 @@ def r3(ctx):
                           s["sp"])
     if n_sites < 2:
         raise mir.AnchorMissing("expected >=2 exclusive prefix end bounds (records + by-key), found %d" % n_sites)
-    ctx.floor("C02.R3", 2)
+    # the two byte-string primitives evaluated (K6') on concrete byte strings: fixed-width increment with carry, and the
+    # shortening successor of a variable-length prefix (the smallest string greater than every string with that prefix)
+    from . import feval as E, coll
+    C = coll.Collections(f)
+
+    def run_bytes(path, data):
+        heap = {"buf": coll.seq("vec", [E.Int(x) for x in data])}
+        try:
+            ret, it = E.run_it(f, path, [E.href("buf")], heap, lambda k, n, p2, s2: C.handle(k, n, p2, s2))
+            b2 = it.resolve(it.heap["buf"])
+            if ret is not None and ret[0] == "diverge":
+                return "PANIC", None
+            return E.describe(ret, f), [x[1] if E.is_int(x) else E.describe(x, f) for x in b2[2]]
+        except E.Unsupported as e:
+            return "UNSUPPORTED-FORM: %s" % e, None
+
+    def inc_spec(d):
+        d = list(d)
+        for i in range(len(d) - 1, -1, -1):
+            if d[i] != 255:
+                d[i] += 1
+                for j in range(i + 1, len(d)):
+                    d[j] = 0
+                return "1", d
+        return "0", None
+
+    def succ_spec(d):
+        d = list(d)
+        while d and d[-1] == 255:
+            d.pop()
+        if not d:
+            return "0", None
+        d[-1] += 1
+        return "1", d
+    samples = ([1, 2, 3], [1, 255], [255, 255], [0, 255, 255], [], [7], [1, 255, 0], [254, 255], [0], [255], [3, 255, 255, 255])
+    for path, spec, what in (("store::fs::bounds::increment_by_one", inc_spec, "fixed-width increment: +1 with carry, trailing 255 bytes become 0, false iff all bytes are 255"),
+                             ("store::fs::bounds::prefix_successor", succ_spec, "shortening successor: trailing 255 bytes dropped, last remaining byte +1, false iff none remains")):
+        b = f.body(path)
+        ctx.touch(*f.scope(path, prefix="store::fs::bounds::"))
+        bad = []
+        for d in samples:
+            got = run_bytes(path, d)
+            want = spec(d)
+            if got[0] != want[0] or (want[1] is not None and got[1] != want[1]):
+                bad.append("%s -> %s, spec %s" % (d, got, want))
+        ctx.check(not bad, "C02.R3", path, "byte-string-table", "evaluated on %d byte strings; deviating: %s; spec: %s" % (len(samples), bad[:4], what), b.sp)
+    ctx.floor("C02.R3", 4)
 
 
 def _chain_owner_locals(body, op):
